@@ -138,6 +138,12 @@ class B(BatchBase):
             elif body == "some":
                 if i % 2 == 1:
                     it.set_value("v%d.%d" % (b, i))
+            elif body == "evens":
+                if i % 2 == 0:
+                    it.set_value("v%d.%d" % (b, i))
+            elif body == "lastraise":
+                if i == len(mine):
+                    it.set_value("v%d.%d" % (b, i))
             elif body == "ierr":
                 if i % 2 == 1:
                     it.set_error(VErr("ie"))
@@ -146,7 +152,7 @@ class B(BatchBase):
             elif body in ("raise", "braise"):
                 if i == 1:
                     it.set_value("v%d.%d" % (b, i))
-        if body == "raise":
+        if body in ("raise", "lastraise"):
             raise VErr("fe")
         if body == "braise":
             raise VBase("fb")
